@@ -196,7 +196,7 @@ fn arg_sentinels(a: &ArgSpec) -> Vec<String> {
 fn isolated_optional_hidden(c: &CmdSpec) -> Vec<&ArgSpec> {
     c.args
         .iter()
-        .filter(|a| a.hide && !a.required && !a.last && !a.exclusive && a.required_unless.is_empty() && a.required_if_eq.is_empty())
+        .filter(|a| a.hide && !a.required && !a.exclusive && a.required_unless.is_empty() && a.required_if_eq.is_empty())
         .filter(|a| !c.groups.iter().any(|g| g.args.contains(&a.id) || g.requires.contains(&a.id)))
         .filter(|a| !c.args.iter().any(|o| o.requires.contains(&a.id) || o.requires_ifs.iter().any(|r| r.1 == a.id)))
         .filter(|a| !a.global || !c.subs.iter().any(|s| referenced_below(s, &a.id)))
